@@ -54,7 +54,19 @@ class VBound(object):
     self.func = func
     self.cls = cls
     self.fn_id = 6000000 + next(_counter)
+    # a method bound to an object: the value is a function of (method, receiver), so that the same bound method
+    # read twice compares equal (python: a.m == a.m)
+    self.term = None
+    if kind == 'repo' and isinstance(recv, V) and func is not None and getattr(func, 'qual', None):
+      code = VBound._mcodes.setdefault(func.qual, 9000000 + len(VBound._mcodes))
+      self.term = z3.Function('bound_method', z3.IntSort(), z3.IntSort(), z3.IntSort())(z3.IntVal(code), recv.t)
+  _mcodes = {}
   ty = FN
+
+
+def fn_term(v):
+  t = getattr(v, 'term', None)
+  return t if t is not None else z3.IntVal(v.fn_id)
 
 
 class VClass(object):
@@ -149,7 +161,7 @@ def coerce(v, ty):
       return v.py[0][1]
     raise Unsupported('storing a composite byte string')
   if isinstance(v, (VFunc, VBound, VClass, VModule)) and ty.k in ('fn', 'any'):
-    return z3.IntVal(v.fn_id)
+    return fn_term(v)
   if isinstance(v, (VFunc, VBound, VClass, VModule)):
     raise Unsupported('storing a callable into %r' % ty)
   if v.ty.k == 'none':
